@@ -1121,6 +1121,8 @@ func c38Pinned() string {
 			Body: []byte(`{"script":{"plain":"vars {\n account $dst\n}\nsend [USD/2 1] (\n source = @world\n destination = $dst\n)","vars":{"dst":false}}}`)}, 4},
 		{httpReq{Route: "v2 GET /volumes", Method: "GET", Path: "/v2/l1/volumes", Body: []byte(`{"$in":{"address":["a:","u:1"]}}`)}, 4},
 		{httpReq{Route: "v2 GET /volumes", Method: "GET", Path: "/v2/l1/volumes", Body: []byte(`{"$in":{"address":[1]}}`)}, 4},
+		{httpReq{Route: "v2 GET /aggregate/balances", Method: "GET", Path: "/v2/l1/aggregate/balances", Body: []byte(`{"$in":{"address":["a:","u:1"]}}`)}, 4},
+		{httpReq{Route: "v2 HEAD /accounts", Method: "HEAD", Path: "/v2/l1/accounts", Body: []byte(`{"$in":{"address":["a:","u:1"]}}`)}, 4},
 		{httpReq{Route: "v2 GET /volumes", Method: "GET", Path: "/v2/l1/volumes", Body: []byte(`{"$match":{"balance[":1}}`)}, 4},
 		{httpReq{Route: "v2 PUT /{ledger}/metadata", Method: "PUT", Path: "/v2/l1/metadata", Body: []byte(`null`)}, 0},
 		{httpReq{Route: "v2 GET /transactions", Method: "GET", Path: "/v2/l1/transactions"}, 2},
@@ -1176,7 +1178,7 @@ func TestC38(t *testing.T) {
 	if problem := c38Pinned(); problem != "" {
 		t.Fatalf("VIOLATION[C38] (pinned request): %s", problem)
 	}
-	st.Set("pinned_requests", 31)
+	st.Set("pinned_requests", 33)
 	if known.IsOpen(FindingAPIBalanceNoAsset) && reproduceAPIBalanceNoAsset() {
 		fmt.Println(known.Line(FindingAPIBalanceNoAsset))
 		st.Known(known.Line(FindingAPIBalanceNoAsset))
